@@ -623,6 +623,15 @@ func (s *Store) flushTick() {
 }
 
 func (s *Store) commit() (types.Work, error) {
+	// A block is put on the freelist after the index has been re-pointed away
+	// from it. The freelist is flushed last, but a Put or Remove that runs
+	// while the index is being flushed can still get its block onto the
+	// freelist in time for the freelist flush, although its index update
+	// missed the index flush. A crash would then leave a block on the freelist
+	// that the index still names, and GC would delete live data. So only
+	// flush the blocks that are on the freelist before the index is flushed.
+	freed := s.freelist.Pending()
+
 	primaryWork, err := s.index.Primary.Flush()
 	if err != nil {
 		return 0, err
@@ -633,7 +642,7 @@ func (s *Store) commit() (types.Work, error) {
 		return 0, err
 	}
 	vhook.Point("commit.indexFlushed")
-	flWork, err := s.freelist.Flush()
+	flWork, err := s.freelist.FlushFirst(freed)
 	if err != nil {
 		return 0, err
 	}
